@@ -28,10 +28,14 @@ for d in sorted(glob.glob(os.path.join(HERE, 'seeded', 'C*-m*'))):
             results[name] = {'applies': False, 'repo_head': head, '_run': os.getpid()}
             continue
         env = dict(os.environ, VERIF_REPO=wt, VERIF_REPLAY_DIR=tmp + '/replays', VERIF_SHRINK_BUDGET='0')
-        p = subprocess.run([os.path.join(HERE, 'check'), pid, '--no-evidence'], capture_output=True, text=True, env=env, cwd=HERE)
-        subs = sorted(set(re.findall(r'^violation in %s/(\w+):' % pid, p.stdout, re.M)))
-        first = re.search(r'^violation in .*$', p.stdout, re.M)
         meta = json.load(open(d + '/meta.json'))
+        # meta['checked_with']: the properties the change really breaks when that is not (only) the one it was requested for
+        for cpid in meta.get('checked_with', [pid]):
+            p = subprocess.run([os.path.join(HERE, 'check'), cpid, '--no-evidence'], capture_output=True, text=True, env=env, cwd=HERE)
+            subs = sorted(set((cpid + '/' if cpid != pid else '') + x for x in re.findall(r'^violation in %s/(\w+):' % cpid, p.stdout, re.M)))
+            first = re.search(r'^violation in .*$', p.stdout, re.M)
+            if p.returncode == 1:
+                break
         results[name] = {'applies': True, 'rc': p.returncode, 'caught': p.returncode == 1, 'subs': subs,
                          'first': first.group(0)[:220] if first else '', 'summary': meta.get('summary', '')[:200], 'repo_head': head, '_run': os.getpid()}
         print(name, 'CAUGHT' if p.returncode == 1 else 'MISSED rc=%d' % p.returncode, subs, flush=True)
